@@ -105,6 +105,49 @@ func wipe(m protoreflect.Message, depth int) {
 	m.SetUnknown(nil)
 }
 
+// scribble adds an unknown record to m and to every message reachable from it
+// (field-less messages included: unknown fields are the only state they have).
+func scribble(m protoreflect.Message, depth int) {
+	if depth > 50 || !m.IsValid() {
+		return
+	}
+	m.Range(func(fd protoreflect.FieldDescriptor, v protoreflect.Value) bool {
+		switch {
+		case fd.IsList() && fd.Message() != nil:
+			for i := 0; i < v.List().Len(); i++ {
+				scribble(v.List().Get(i).Message(), depth+1)
+			}
+		case fd.IsMap() && fd.MapValue().Message() != nil:
+			v.Map().Range(func(_ protoreflect.MapKey, mv protoreflect.Value) bool { scribble(mv.Message(), depth+1); return true })
+		case fd.Message() != nil && !fd.IsList() && !fd.IsMap():
+			scribble(v.Message(), depth+1)
+		}
+		return true
+	})
+	m.SetUnknown(append(append(protoreflect.RawFields(nil), m.GetUnknown()...), 0xf8, 0x7f, 0x2a)) // field 2047 varint 42
+}
+
+// independentParses: two messages parsed from the same text must not share
+// anything: disturbing every part of the first leaves the second untouched.
+func independentParses(what string, first, second proto.Message) error {
+	before := model.Snapshot(second)
+	canonBefore := canonI(second)
+	if err := safely(func() error { scribble(first.ProtoReflect(), 0); return nil }); err != nil {
+		return nil // e.g. a nil element held read-only: nothing to disturb through it
+	}
+	if after := model.Snapshot(second); after != before {
+		return fmt.Errorf("two messages parsed by %s from the same input share state: adding unknown fields to every message of the first changed the second: %s (value before %s, now %s)", what, diffStr(after, before), trunc(canonBefore, 200), trunc(canonI(second), 200))
+	}
+	for _, s := range model.ByteSlices(first) {
+		complement(s)
+	}
+	wipe(first.ProtoReflect(), 0)
+	if after := model.Snapshot(second); after != before {
+		return fmt.Errorf("two messages parsed by %s from the same input share state: changing the first changed the second: %s (value before %s, now %s)", what, diffStr(after, before), trunc(canonBefore, 200), trunc(canonI(second), 200))
+	}
+	return nil
+}
+
 func jsonSemantic(b []byte) (interface{}, error) {
 	var v interface{}
 	err := json.Unmarshal(b, &v)
@@ -152,6 +195,10 @@ func checkC10(ctx *Ctx, c *Case) error {
 		for _, s := range model.ByteSlices(cl) {
 			complement(s)
 		}
+		_ = safely(func() error { scribble(cl.ProtoReflect(), 0); return nil })
+		if after := model.Snapshot(p); after != before {
+			return fmt.Errorf("adding unknown fields to every message of the clone changed the original (shallow copy): %s", diffStr(after, before))
+		}
 		wipe(cl.ProtoReflect(), 0)
 		if after := model.Snapshot(p); after != before {
 			return fmt.Errorf("mutating the clone changed the original (shallow copy): %s", diffStr(after, before))
@@ -174,6 +221,10 @@ func checkC10(ctx *Ctx, c *Case) error {
 		}
 		for _, s := range model.ByteSlices(pw) {
 			complement(s)
+		}
+		_ = safely(func() error { scribble(pw.ProtoReflect(), 0); return nil })
+		if got := canonI(p); got != refCanon {
+			return fmt.Errorf("destination shares a message with the Merge source (unknown fields added to the source show up): %s", diffStr(got, refCanon))
 		}
 		wipe(pw.ProtoReflect(), 0)
 		if got := canonI(p); got != refCanon {
@@ -292,6 +343,16 @@ func checkC10(ctx *Ctx, c *Case) error {
 			if a, b := canonP(p2), canonD(d2.ProtoReflect()); a != b {
 				return fmt.Errorf("protojson.Unmarshal result (generated reflection) differs: %s", diffStr(a, b))
 			}
+			p3 := t.New()
+			if err := protojson.Unmarshal(ref, p3); err != nil {
+				return fmt.Errorf("protojson.Unmarshal of the same input failed the second time: %v", err)
+			}
+			if err := independentParses("protojson", p2, p3); err != nil {
+				return err
+			}
+			if a, b := canonI(p3), canonD(d2.ProtoReflect()); a != b {
+				return fmt.Errorf("a message parsed by protojson changed when another parse result was modified: %s", diffStr(a, b))
+			}
 		}
 		ctx.Label("json: compared")
 	case "text":
@@ -324,6 +385,16 @@ func checkC10(ctx *Ctx, c *Case) error {
 			}
 			if a, b := canonI(p2), canonD(dr.ProtoReflect()); a != b {
 				return fmt.Errorf("prototext.Unmarshal result differs from reference: %s", diffStr(a, b))
+			}
+			p3 := t.New()
+			if err := prototext.Unmarshal(ref, p3); err != nil {
+				return fmt.Errorf("prototext.Unmarshal of the same input failed the second time: %v", err)
+			}
+			if err := independentParses("prototext", p2, p3); err != nil {
+				return err
+			}
+			if a, b := canonI(p3), canonD(dr.ProtoReflect()); a != b {
+				return fmt.Errorf("a message parsed by prototext changed when another parse result was modified: %s", diffStr(a, b))
 			}
 		}
 		if s, ok := p.(fmt.Stringer); ok {
